@@ -819,6 +819,11 @@ int yr_parser_reduce_string_declaration(
       }
     }
 
+    // Let the AST know whether "." matches every byte (hex strings, /s), the
+    // AST is split into chained strings only if that's the case.
+    if (modifier.flags & STRING_FLAGS_DOT_ALL)
+      re_ast->flags |= RE_FLAGS_DOT_ALL;
+
     if (re_ast->flags & RE_FLAGS_FAST_REGEXP)
       modifier.flags |= STRING_FLAGS_FAST_REGEXP;
 
